@@ -67,7 +67,7 @@ def make_path(rng):
     return regions, steps
 
 
-def encode(regions, steps, variant, at, rng, shift=(0, 0)):
+def encode(regions, steps, variant, at, rng, shift=(0, 0), erel=False):
     """Return program steps for the rig and the indices of the abstract steps in them."""
     out = []
     for index, reg in enumerate(regions):
@@ -80,6 +80,9 @@ def encode(regions, steps, variant, at, rng, shift=(0, 0)):
                 moved[key] += shift[1]
         out.append(("addr", gen_motion.region_spec(moved, "r%d" % (index + 1))))
     out.append(("g", "G28", {}))
+    if erel:
+        # the path addresses the extruder relatively (in the base encoding too)
+        out.append(("g", "M83", {}))
     if shift != (0, 0):
         # the translated run starts from the translated origin
         out.append(("g", "G1 X%s Y%s" % (fmt_mm(shift[0]), fmt_mm(shift[1])), {}))
@@ -119,11 +122,11 @@ def encode(regions, steps, variant, at, rng, shift=(0, 0)):
                 words.append(word(axis, tgt))
                 pos[axis] = tgt
             if de:
-                e += de
+                e = de if erel else e + de
                 words.append("E" + (fmt_in(e // STEP) if inch else fmt_mm(e)))
             out.append(("g", "G1 " + " ".join(words), {}))
         elif step[0] == "eonly":
-            e += step[1]
+            e = step[1] if erel else e + step[1]
             out.append(("g", "G1 E" + (fmt_in(e // STEP) if inch else fmt_mm(e)), {}))
         else:
             out.append(("g", step[1], {}))
@@ -138,9 +141,11 @@ def build_case(seed):
     shift = (0, 0)
     if variant == "translate":
         shift = (rng.randint(1, 10) * STEP, rng.randint(1, 10) * STEP)
-    base, ia = encode(regions, steps, "base", -1, rng)
-    var, ib = encode(regions, steps, variant, at, rng, shift)
-    return {"seed": seed, "variant": variant, "at": at, "shift": list(shift),
+    erel = rng.random() < 0.35
+    base, ia = encode(regions, steps, "base", -1, rng, erel=erel)
+    var, ib = encode(regions, steps, variant, at, rng, shift, erel=erel)
+    return {"seed": seed, "variant": variant + ("+m83" if erel else ""), "at": at,
+            "shift": list(shift),
             "base": base, "var": var, "pairs": [[a + 1, b + 1] for a, b in zip(ia, ib)]}
 
 
@@ -154,7 +159,7 @@ def run_case(case, trace_id):
     return {"id": trace_id, "tol": record.TOL_TRACE,
             "a": traces[0]["ev"], "b": traces[1]["ev"], "pairs": case["pairs"],
             "shift": [case["shift"][0] * 200, case["shift"][1] * 200],
-            "tag": "g92xyz" if case["variant"] == "g92" else ""}
+            "tag": "g92xyz" if case["variant"].startswith("g92") else ""}
 
 
 def run(tier, seed):
@@ -203,7 +208,8 @@ def run(tier, seed):
         "coverage": {
             "evaluations": len(cases), "distinct_nontrivial": len(nontrivial),
             "rule": "random abstract tool paths on a 2.54 mm grid (moves with every subset of "
-                    "axes, Z changes, extrusions, retract cycles), destinations >= 0.5 mm from "
+                    "axes, Z changes, extrusions, retract cycles; extruder addressed absolutely or, "
+                    "in a third of the cases, relatively (M83)), destinations >= 0.5 mm from "
                     "region borders, re-encoded from a random step (inch / relative / G92) or "
                     "translated; non-trivial = the base run suppresses at least one command",
             "samples": [{"variant": cases[0]["variant"], "at": cases[0]["at"],
